@@ -273,6 +273,11 @@ class ExprGen:
             else:
                 e, v = R.choice([("\\u{e9}", "é"), ("\\u{20AC}", "€"), ("\\u{1d11e}", "𝄞"), ("\\u{7D}", "}")])
                 parts.append(e); val += v
+        # endings that decide where the literal closes: an escaped backslash / an escaped quote right before the closing quote
+        r = R.random()
+        if r < 0.15: parts.append("\\\\"); val += "\\"
+        elif r < 0.25: parts.append('\\"'); val += '"'
+        elif r < 0.30: parts.append('\\\\\\"'); val += '\\"'
         return '"' + "".join(parts) + '"', val
     def int_expr(self, d):
         R = self.R
